@@ -108,6 +108,46 @@ Section JournalProofs.
     - intros [c [Hc [Ha [Hb Hx]]]]. right. exists c. auto.
   Qed.
 
+  (* ---------- the pinned reader stops, silently, at the first line its scanner cannot take ---------- *)
+  Section LongLine.
+    Variable long : chunk hash -> bool.
+    Notation scanned := (scanned hash long).
+    Notation count_v0 := (count_v0 hash heqb long).
+
+    Lemma scanned_all : forall j, (forall c, In c j -> long c = false) -> scanned j = j.
+    Proof.
+      induction j as [|c j IH]; intro H; cbn [Journal.scanned]; [reflexivity|].
+      rewrite (H c (or_introl eq_refl)). f_equal. apply IH. intros c' Hc. apply H. right. exact Hc.
+    Qed.
+
+    (* what is read is the part of the journal in front of the first long line *)
+    Lemma scanned_prefix : forall j,
+      (scanned j = j /\ forall c, In c j -> long c = false) \/
+      exists pre c post, j = pre ++ c :: post /\ long c = true /\ scanned j = pre /\ forall c', In c' pre -> long c' = false.
+    Proof.
+      induction j as [|c j IH]; cbn [Journal.scanned].
+      - left. split; [reflexivity | intros c []].
+      - destruct (long c) eqn:E.
+        + right. exists [], c, j. split; [reflexivity|]. split; [exact E|]. split; [reflexivity | intros c' []].
+        + destruct IH as [[H1 H2]|[pre [c0 [post [H1 [H2 [H3 H4]]]]]]].
+          * left. split; [rewrite H1; reflexivity|]. intros c' [<-|Hc]; [exact E | apply H2; exact Hc].
+          * right. exists (c :: pre), c0, post. split; [rewrite H1; reflexivity|]. split; [exact H2|].
+            split; [rewrite H3; reflexivity|]. intros c' [<-|Hc]; [exact E | apply H4; exact Hc].
+    Qed.
+
+    Lemma count_v0_no_long : forall from to j, (forall c, In c j -> long c = false) -> count_v0 from to j = count from to j.
+    Proof. intros from to j H. unfold Journal.count_v0. rewrite (scanned_all j H). reflexivity. Qed.
+
+    Lemma count_v0_cut : forall from to pre c post,
+      long c = true -> (forall c', In c' pre -> long c' = false) ->
+      count_v0 from to (pre ++ c :: post) = count from to pre.
+    Proof.
+      intros from to pre c post Hc Hpre. unfold Journal.count_v0. f_equal.
+      induction pre as [|x pre IH]; cbn [app Journal.scanned]; [rewrite Hc; reflexivity|].
+      rewrite (Hpre x (or_introl eq_refl)). f_equal. apply IH. intros c' H'. apply Hpre. right. exact H'.
+    Qed.
+  End LongLine.
+
   (* the journal depends on addresses only through [mask] *)
   Lemma mask_only : forall now a b w, mask a = mask b -> add now a w = add now b w.
   Proof. intros now a b w H. unfold Journal.add. rewrite H. reflexivity. Qed.
